@@ -56,9 +56,10 @@ PROP = {'gen': [],
                'and dirty initial states are compared, C05_stream_one_encoder: one encoder object = concatenation of self-contained encodings). Composition with C01 (true colour): the bytes of every '
                'renderer command, read by this interpreter and run on C01\'s reference screen, do exactly what the command does there '
                '(C05_C01_bytes/_list/_history_bytes), hence after every history ending in a frame the screen reached through the BYTES '
-               'displays show(S) (C05_C01_history_final, corollary of C01); renderer sessions are checked this way end to end. Counted theorems (16): C05_meaning, _face_exact, _face_reduced, '
+               'displays show(S) (C05_C01_history_final, corollary of C01); renderer sessions are checked this way end to end. Counted theorems (17): C05_meaning, _face_exact, _face_reduced, '
                '_facemodify_reduced, _selfcontained, _stream_after_complete_prefix, _stream_one_encoder (about the model, close to '
-               'definitional), _parser_concat, _nopanic, _nopanic_with_reduction, _char_introducer_refuted_before_fix, _decmodes, '
+               'definitional), _failed_write_harmless (writer that fails after k bytes: a prefix is delivered and nothing leaks into later '
+               'commands), _parser_concat, _nopanic, _nopanic_with_reduction, _char_introducer_refuted_before_fix, _decmodes, '
                'C05_C01_bytes, _list, _history_bytes, _history_final. Nine crate defects found and fixed (dc2484b 99cef6a 79f9e06 bdc3281 '
                '3326eaa c4fb555 4d6dbe2 cdeff57 73d8d1c); no open known finding.',
  'level_note': 'Trusted: Coq kernel + vm_compute; translate/enc_tables.py; hand-written model Encoder/Encode.v validated by the '
@@ -90,4 +91,5 @@ PROP = {'gen': [],
                  'characters (Unicode Cc), Char of any scalar value (a control is executed, DEL / ST ignored, the seven sequence '
                  'introducers are shown as U+FFFD since crate fix 73d8d1c: decisions D8, D10 of Encoder/Denote.v); Raw means its bytes '
                  'and is excluded from self-containedness',
-                 'writes into the output never fail (io errors are outside the model)']}
+                 'a writer either accepts everything or accepts k bytes and then returns errors (C05_failed_write_harmless, FailWrite cases); error '
+                 'kinds and Interrupted retries are not distinguished']}
